@@ -285,3 +285,24 @@ func TestSelfNGAPReader(t *testing.T) {
 		t.Fatalf("ULINR = %x %x %x %x (%v) on %x", cp, cell, tp, tac, err, ub)
 	}
 }
+
+// The transfer as built by the C12 generator and encoded by refper, against octets derived by
+// hand from X.691 / TS 38.413 §9.3.4.1 (they are also what free5GC's SMF is seen to send):
+// AMBR 1 Gbit/s both ways, UL NG-U tunnel 10.200.200.102 / TEID 1, PDU session type IPv4,
+// one QoS flow (QFI 1, 5QI 9, ARP 8).
+func TestSelfTransferEncoding(t *testing.T) {
+	x := c12Transfer{AMBR: []int64{1000000000, 1000000000}, TEID: 1, UPF: HexBytes{10, 200, 200, 102},
+		Flows: []c12Flow{{QFI: 1, FiveQI: 9, ARP: 8}}}
+	b, err := x.build()
+	want := "000004" + "0082000a0c3b9aca00303b9aca00" + "008b000a01f00ac8c86600000001" + "0086000100" + "0088000700010000091c00"
+	if err != nil || !bytes.Equal(b, unhex(t, want)) {
+		t.Fatalf("transfer encoding (%v):\n got %x\nwant %s", err, b, want)
+	}
+	// every octet-count boundary of the bit rate: 0x0c = length 4, 0x14 = length 6 for 4·10^12
+	x.AMBR = []int64{4000000000000, 0}
+	b, err = x.build()
+	want = "000004" + "00820009" + "1403a352944000" + "0000" + "008b000a01f00ac8c86600000001" + "0086000100" + "0088000700010000091c00"
+	if err != nil || !bytes.Equal(b, unhex(t, want)) {
+		t.Fatalf("transfer encoding (%v):\n got %x\nwant %s", err, b, want)
+	}
+}
